@@ -124,9 +124,6 @@ def limits_for(rng, n, prealloc, tier):
           prealloc + n, rng.randrange(0, n + 2), rng.randrange(0, 2 * n + 2),
           rng.choice([512, 1024, 1536, 2048, 3072, 4096, 8192, 16384]), rng.randrange(0, 20000),
           1 << 20, rng.choice([USIZE_MAX, (1 << 63) - 1])}
-    if prealloc > 64 and rng.random() < 0.8:
-        # stay mostly inside the hypothesis prealloc <= M (below it the constructor panics: F5)
-        ls = {l if l >= prealloc else prealloc + l for l in ls} | {rng.choice([0, prealloc - 1])}
     return sorted(ls), "sparse"
 
 
